@@ -104,6 +104,17 @@ func (c *control) Write(p []byte) (n int, err error) {
 	return len(p), nil
 }
 
+// nextArg returns the next format argument and moves on. An error is raised
+// if the arguments are used up or a ~* moved to before the first one.
+func (c *control) nextArg() slip.Object {
+	if c.argPos < 0 || len(c.args) <= c.argPos {
+		slip.ErrorPanic(c.scope, 0, "not enough arguments for the directive at %d of %q", c.pos, c.str)
+	}
+	arg := c.args[c.argPos]
+	c.argPos++
+	return arg
+}
+
 func (c *control) process() {
 	for c.pos < c.end {
 		b := c.str[c.pos]
@@ -149,10 +160,7 @@ func (c *control) readDir() {
 			params = append(params, len(c.args)-c.argPos)
 		case 'v':
 			var p any
-			if 0 <= c.argPos {
-				p = c.args[c.argPos]
-				c.argPos++
-			}
+			p = c.nextArg()
 			params = append(params, p)
 		case '\'':
 			p := c.readParam()
@@ -307,8 +315,7 @@ func (c *control) dirMoney(colon, at bool, params []any) {
 	padchar := c.getCharParam(3, params, []byte{' '})
 	var val float64
 	if 0 <= c.argPos {
-		arg := c.args[c.argPos]
-		c.argPos++
+		arg := c.nextArg()
 		if r, ok := arg.(slip.Real); ok {
 			val = r.RealValue()
 		} else {
@@ -510,6 +517,9 @@ func (c *control) dirMove(colon, at bool, params []any) {
 	default:
 		c.argPos += n
 	}
+	if c.argPos < 0 || len(c.args) < c.argPos {
+		slip.ErrorPanic(c.scope, 0, "can not move to argument %d of %d at %d of %q", c.argPos, len(c.args), c.pos, c.str)
+	}
 }
 
 func (c *control) dirCall(colon, at bool, params []any) {
@@ -527,10 +537,7 @@ func (c *control) dirCall(colon, at bool, params []any) {
 	fi := slip.MustFindFunc(string(name)) // panics if not found
 	args := make(slip.List, 4)
 	args[0] = &slip.OutputStream{Writer: c}
-	if 0 <= c.argPos {
-		args[1] = c.args[c.argPos]
-		c.argPos++
-	}
+	args[1] = c.nextArg()
 	if colon {
 		args[2] = slip.True
 	}
@@ -764,10 +771,7 @@ func (c *control) dirA(colon, at bool, params []any) {
 	p.Readably = false
 	if !colon && !at && len(params) == 0 { // bare ~A, the most common case
 		var arg slip.Object
-		if 0 <= c.argPos {
-			arg = c.args[c.argPos]
-			c.argPos++
-		}
+		arg = c.nextArg()
 		if ss, ok := arg.(slip.String); ok {
 			c.out = append(c.out, ss...)
 		} else if sa, ok := arg.(slip.ScopedAppender); ok {
@@ -789,10 +793,7 @@ func (c *control) dirC(colon, at bool, params []any) {
 		arg slip.Character
 		ok  bool
 	)
-	if 0 <= c.argPos {
-		arg, ok = c.args[c.argPos].(slip.Character)
-		c.argPos++
-	}
+	arg, ok = c.nextArg().(slip.Character)
 	if !ok {
 		slip.ErrorPanic(c.scope, 0, "character directive expected a character argument at %d of %q", c.pos, c.str)
 	}
@@ -821,10 +822,7 @@ func (c *control) dirInt(colon, at bool, params []any, base int) {
 		out []byte
 		neg bool
 	)
-	if 0 <= c.argPos {
-		arg = c.args[c.argPos]
-		c.argPos++
-	}
+	arg = c.nextArg()
 	mincol := 0
 	padchar := []byte{' '}
 	commachar := []byte{','}
@@ -885,10 +883,7 @@ func (c *control) dirInt(colon, at bool, params []any, base int) {
 
 func (c *control) getEFGarg(ff *floatFormatter) {
 	var arg slip.Object
-	if 0 <= c.argPos {
-		arg = c.args[c.argPos]
-		c.argPos++
-	}
+	arg = c.nextArg()
 	// golang big.Float fails to preserve digits when printing. The last few
 	// become noise even with a very high precision so no attempt is made to
 	// support long-float other that as a double-float.
@@ -1144,8 +1139,7 @@ func (c *control) dirP(colon, at bool, params []any) {
 	if c.argPos < 0 || len(c.args) <= c.argPos {
 		slip.ErrorPanic(c.scope, 0, "missing argument for Plural directive at %d of %q", c.pos, c.str)
 	}
-	arg := c.args[c.argPos]
-	c.argPos++
+	arg := c.nextArg()
 	n, ok := arg.(slip.Fixnum)
 	switch {
 	case ok && n == 1:
@@ -1168,8 +1162,7 @@ func (c *control) dirR(colon, at bool, params []any) {
 		words  []string
 		sep    string
 	)
-	arg := c.args[c.argPos]
-	c.argPos++
+	arg := c.nextArg()
 	switch ta := arg.(type) {
 	case slip.Fixnum:
 		digits = strconv.AppendInt(nil, int64(ta), 10)
@@ -1291,10 +1284,7 @@ func (c *control) dirAS(colon, at bool, params []any, p *slip.Printer) {
 		out []byte
 		pad []byte
 	)
-	if 0 <= c.argPos {
-		arg = c.args[c.argPos]
-		c.argPos++
-	}
+	arg = c.nextArg()
 	switch ta := arg.(type) {
 	case nil:
 		if colon {
@@ -1395,10 +1385,7 @@ func (c *control) dirT(colon, at bool, params []any) {
 
 func (c *control) dirW(colon, at bool, params []any) {
 	var arg slip.Object
-	if 0 <= c.argPos {
-		arg = c.args[c.argPos]
-		c.argPos++
-	}
+	arg = c.nextArg()
 	p := *slip.DefaultPrinter()
 	p.ScopedUpdate(c.scope)
 	if colon {
